@@ -38,7 +38,7 @@ def rewrite_sync(root):
         open(p, "w").write(s)
     return n
 
-MAP_EXPRS = ["m.allocations", "a.permissions", "a.tcpConnections", "allocation.tcpConnections", "m.permMap", "mgr.chanMap", "m.trMap"]
+MAP_EXPRS = ["s.conns", "m.allocations", "a.permissions", "a.tcpConnections", "allocation.tcpConnections", "m.permMap", "mgr.chanMap", "m.trMap"]
 
 def rewrite_map_loops(root):
     """`for ... := range <known map>` -> deterministic order via simsync.Keys/Values. Returns #loops."""
